@@ -399,7 +399,7 @@ def main(tier, seed):
         ctx.extra['dev_mode'] = {'kinds': DEV_KINDS, 'skip': DEV_SKIP}
     order = list(range(len(all_inj)))
     random.Random(seed + 2).shuffle(order)
-    n6 = 1500 if tier == 'quick' else 4500
+    n6 = 600 if tier == 'quick' else 4500
     six = set(order[:n6])
     if tier == 'quick':
         chosen = sorted(six)
@@ -416,7 +416,7 @@ def main(tier, seed):
 
     # controls: the helper lines of every variant are valid
     ctrl_cases, ctrl_meta, seen_ctrl = [], [], {}
-    chosen_q = sorted(order[:1500])
+    chosen_q = sorted(order[:600])
     in_q = set(chosen_q)
     cap = 2 if tier == 'quick' else 4       # quick's two per variant come first
     for i in chosen_q + [j for j in chosen if j not in in_q]:
@@ -477,7 +477,7 @@ def main(tier, seed):
     # which takes every 2nd of all block faults plus quick's)
     if 'blocks' in DEV_SKIP:
         bl = []
-    bl_q = [x for x in bl if x[0] in set(order[:1500])][:400]
+    bl_q = [x for x in bl if x[0] in set(order[:600])][:400]
     if tier == 'quick':
         bl = bl_q
     else:
